@@ -7,7 +7,8 @@ Drivers
               one key whose value is a data block: 250+key=first / lines / .
   "getconf":  {"name": N, "asked": spelling, "values": null | [v, ...], "api": "get_conf"|"get_conf_single"}
               null = unset (Tor answers '250 Name'), [] is not used, [""] = set to the empty string
-Replies are built by the reference encoder and travel through the real protocol.
+Replies are built by the reference encoder and travel through the real protocol.  "event": null | [form, when]
+adds an asynchronous 650 event (single/multi/data form) just before the query is issued or while it is in flight.
 """
 from __future__ import annotations
 
@@ -49,12 +50,17 @@ def _values():
     return st.one_of(st.sampled_from(TRAPS), PRINTABLE, st.text(alphabet=st.sampled_from(ALPHA), max_size=6))
 
 
+def _events():
+    return st.one_of(st.none(), st.none(), st.tuples(st.sampled_from(["multi", "data", "single"]),
+                                                      st.sampled_from(["before", "inflight"])).map(list))
+
+
 def getinfo_cases():
     return st.builds(
-        lambda keys, vals, chunk: {"pairs": [[k, v] for k, v in zip(keys, vals)], "chunk": chunk},
+        lambda keys, vals, chunk, ev: {"pairs": [[k, v] for k, v in zip(keys, vals)], "chunk": chunk, "event": ev},
         st.lists(st.sampled_from(KEYS), min_size=1, max_size=5, unique=True),
         st.lists(_values(), min_size=5, max_size=5),
-        st.one_of(st.none(), st.integers(1, 30)))
+        st.one_of(st.none(), st.integers(1, 30)), _events())
 
 
 def getinfo1_cases():
@@ -72,10 +78,10 @@ CONF_NAMES = [("SocksPort", "SOCKSPORT"), ("ContactInfo", "contactinfo"), ("Log"
 
 def getconf_cases():
     return st.builds(
-        lambda nm, vals, api: {"name": nm[0], "asked": nm[1], "values": vals, "api": api},
+        lambda nm, vals, api, ev: {"name": nm[0], "asked": nm[1], "values": vals, "api": api, "event": ev},
         st.sampled_from(CONF_NAMES),
         st.one_of(st.none(), st.just([""]), st.lists(_values(), min_size=1, max_size=4)),
-        st.sampled_from(["get_conf", "get_conf_single"]))
+        st.sampled_from(["get_conf", "get_conf_single"]), _events())
 
 
 def exhaustive_getinfo(maxlen):
@@ -90,19 +96,33 @@ def exhaustive_getinfo(maxlen):
             yield {"pairs": [["a", "z"], ["a/b", v]], "chunk": None}
 
 
-def _run_query(handler_reply, call, chunk=None):
-    state = {"n": 0}
+EVENTS = {
+    "multi": {"form": "multi", "name": "CIRC", "first": "1000 EXTENDED moria1,moria2", "more": ["EXTRAMAGIC=99"]},
+    "data": {"form": "data", "name": "NS", "first": "", "more": ["r a b c", "s Fast"]},
+    "single": {"form": "single", "name": "CIRC", "first": "7 BUILT x=y", "more": []},
+}
+
+
+def _run_query(handler_reply, call, chunk=None, event=None):
+    """event: None | [form, "before"|"inflight"] - an asynchronous 650 event (with a listener registered, so a real
+    Tor would send it) that arrives just before the query is issued, or while it is in flight."""
+    state = {}
+    pipe, srv = bootstrapped_pipe()
+    evbytes = None
+    if event:
+        ev = EVENTS[event[0]]
+        pipe.proto.add_event_listener(ev["name"], lambda payload: None)
+        pipe.pump()
+        evbytes = wire.encode_event(ev)
+        if event[1] == "before":
+            pipe.inject(evbytes)
 
     def handler(line):
-        if line.startswith("GETINFO ") and state["n"] == 0 and not line.startswith("GETINFO signal") \
-                and line not in ("GETINFO version", "GETINFO events/names") or line.startswith("GETCONF "):
-            state["n"] += 1
-            state["line"] = line
-            return handler_reply
-        return NotImplemented
-    # bootstrap first with the plain server, then install the reply
-    pipe, srv = bootstrapped_pipe()
-    srv.handler = lambda line: (state.__setitem__("line", line) or handler_reply)
+        state["line"] = line
+        if event and event[1] == "inflight":
+            return evbytes + wire.encode_reply(handler_reply)
+        return handler_reply
+    srv.handler = handler
     pipe.chunk = chunk
     raised = None
     w = None
@@ -123,7 +143,9 @@ def drive_getinfo(case):
     pairs = [(k, v) for k, v in case["pairs"]]
     keys = [k for k, v in pairs]
     reply = wire.getinfo_reply(pairs)
-    pipe, w, raised, line = _run_query(reply, lambda p: p.get_info(*keys), case.get("chunk"))
+    pipe, w, raised, line = _run_query(reply, lambda p: p.get_info(*keys), case.get("chunk"), case.get("event"))
+    if case.get("event"):
+        res.label("event-%s-%s" % tuple(case["event"]))
     if line != "GETINFO " + " ".join(keys):
         res.bad("getinfo-wire", "wrote %r" % (line,))
     res.nontrivial = any((" " in v and "=" in v.split(" ", 1)[1]) or _quoted(v) for k, v in pairs)
@@ -221,7 +243,9 @@ def drive_getconf(case):
         call = lambda p: p.get_conf(asked)
     else:
         call = lambda p: p.get_conf_single(asked)
-    pipe, w, raised, line = _run_query(reply, call)
+    pipe, w, raised, line = _run_query(reply, call, None, case.get("event"))
+    if case.get("event"):
+        res.label("event-%s-%s" % tuple(case["event"]))
     if line != "GETCONF " + asked:
         res.bad("getconf-wire", "wrote %r" % (line,))
     res.nontrivial = values is None or values == [""] or len(values) > 1 or any(_quoted(v) for v in values)
